@@ -82,6 +82,7 @@ func (s *Spec) fixUse() {
 			tm.Code = 0
 		}
 	}
+	s.syncPrecTags()
 }
 
 // Uniform draws random rules; every nonterminal gets at least one rule, so the
